@@ -8,7 +8,7 @@
    analogue and whole include trees are decided by the tree oracle and the
    correspondence of this check. *)
 From Coq Require Import List NArith Bool Reals Lra.
-From PG Require Import Common.Strs Thermo.Num Thermo.RawData Thermo.RawData_proofs Thermo.Merge Thermo.Merge_proofs.
+From PG Require Import Common.Strs Thermo.Num Thermo.RawData Thermo.RawData_proofs Thermo.Merge Thermo.Merge_proofs Thermo.Merge_lib_proofs.
 Import ListNotations.
 Local Open Scope R_scope.
 
@@ -151,3 +151,29 @@ Theorem C13_update_twice : forall splint quadS lnr isclose, (forall a, isclose a
   corr_update (K:=Rops) splint quadS lnr isclose new other false = (new, None).
 Proof. exact update_idempotent. Qed.
 Print Assumptions C13_update_twice.
+
+(* ---------- whole libraries: "whatever the include order" ---------- *)
+(* GroupLibrary.Update works group by group: what a group holds afterwards depends only on the data given for that group *)
+Theorem C13_library_update_groupwise : forall splint quadS lnr isclose other, NoDup (map fst other) ->
+  forall self res g, lib_update (K:=Rops) splint quadS lnr isclose self other false = (res, None) ->
+  match lib_get (K:=Rops) other g with
+  | None => lib_get (K:=Rops) res g = lib_get (K:=Rops) self g
+  | Some c => match lib_get (K:=Rops) self g with
+              | None => lib_get (K:=Rops) res g = Some c
+              | Some mine => exists new, corr_update (K:=Rops) splint quadS lnr isclose mine c false = (new, None) /\ lib_get (K:=Rops) res g = Some new
+              end
+  end.
+Proof. exact lib_update_get. Qed.
+
+(* two included libraries merged into a library in either order (both orders accepted): every group ends with the same
+   heat-capacity table (as a map from temperature to value) and the same valid range.  Keys of a library and temperatures of a
+   table are unique (they are dict keys). *)
+Theorem C13_library_order_free : forall splint quadS lnr isclose a x y ax axy ay ayx,
+  NoDup (map fst x) -> NoDup (map fst y) ->
+  (forall g c, lib_get (K:=Rops) x g = Some c -> NoDup (map fst (i_tab c))) ->
+  (forall g c, lib_get (K:=Rops) y g = Some c -> NoDup (map fst (i_tab c))) ->
+  lib_update (K:=Rops) splint quadS lnr isclose a x false = (ax, None) -> lib_update (K:=Rops) splint quadS lnr isclose ax y false = (axy, None) ->
+  lib_update (K:=Rops) splint quadS lnr isclose a y false = (ay, None) -> lib_update (K:=Rops) splint quadS lnr isclose ay x false = (ayx, None) ->
+  forall g, same_group (lib_get (K:=Rops) axy g) (lib_get (K:=Rops) ayx g).
+Proof. exact lib_order_free. Qed.
+Print Assumptions C13_library_order_free.
